@@ -464,6 +464,8 @@ func (w *World) Consume() []Arrival {
 		if e != nil {
 			return nil
 		}
+		// removal and recording are one step for concurrent observers
+		w.mu.Lock()
 		os.Remove(p)
 		a := Arrival{Target: rel, MD5: md5hex(data), Size: int64(len(data)), Step: w.step, Gen: w.gen, When: time.Now()}
 		// which version is it?
@@ -475,6 +477,7 @@ func (w *World) Consume() []Arrival {
 			}
 		}
 		w.arrivals = append(w.arrivals, a)
+		w.mu.Unlock()
 		out = append(out, a)
 		if !w.Quiet {
 			w.t.Note("#%d ARRIVAL %s md5=%s size=%d", w.step, rel, a.MD5[:4], a.Size)
